@@ -81,6 +81,11 @@ func reservedAttempts() []reservedAttempt {
 
 func runC18(c *eng.Ctx) {
 	cr := &caseRunner{c: c, prop: "C18"}
+	defer func() {
+		if C18Concurrent != nil {
+			C18Concurrent(c, cr.next)
+		}
+	}()
 	// (a) reserved types cannot be registered
 	for _, ra := range reservedAttempts() {
 		idx, mine := cr.next()
@@ -161,45 +166,11 @@ func runC18(c *eng.Ctx) {
 			rootCtx, _ := r.Prov.Get(pool.T("Context"))
 			o := Digest(r)
 			// injected built-ins
-			for _, run := range o.Runs {
-				if run.Reg < 0 {
-					continue
-				}
-				ri := &m.Regs[run.Reg]
-				var wantScope, wantCtx any
-				if ri.Life == godi.Singleton || run.Scope == 0 {
-					wantScope, wantCtx = rootScope, rootCtx
-				} else if run.Scope > 0 && run.Scope < len(r.Scopes) {
-					wantScope, wantCtx = r.Scopes[run.Scope].S, r.Scopes[run.Scope].S.Context()
-					deep = true
-				} else {
-					continue
-				}
-				for kk, a := range run.Args {
-					if kk >= len(ri.Binds) || ri.Binds[kk].Kind != BindBuiltin {
-						continue
-					}
-					c.R.Count("builtin_args_checked", 1)
-					feat := lifeName(ri.Life) + ":" + ri.Binds[kk].Dep.Form.String()
-					if ri.Meta.InStyle {
-						feat += ":in-field"
-					}
-					where := fmt.Sprintf("argument %d of %s (op%d %s)", kk, m.Describe(run.Reg), run.Op, opText(r, run.Op))
-					switch ri.Binds[kk].Dep.Form {
-					case pool.FScope:
-						if a.Val != wantScope {
-							fs = append(fs, Finding{"injected-scope-wrong", feat, where + ": the injected Scope is not the scope the resolution was issued on"})
-						}
-					case pool.FProvider:
-						if a.Val != any(r.Prov) {
-							fs = append(fs, Finding{"injected-provider-wrong", feat, where + ": the injected Provider is not the root provider"})
-						}
-					case pool.FContext:
-						if a.Val != wantCtx {
-							fs = append(fs, Finding{"injected-context-wrong", feat, where + ": the injected context is not the scope's context"})
-						}
-					}
-				}
+			bfs, nChecked, sawDeep := CheckBuiltinArgs(r, o, rootScope, rootCtx)
+			fs = append(fs, bfs...)
+			c.R.Count("builtin_args_checked", int64(nChecked))
+			if sawDeep {
+				deep = true
 			}
 			// direct requests, keyed/grouped requests, FromContext, ctx linkage
 			for sc := 1; sc < len(r.Scopes); sc++ {
@@ -330,6 +301,11 @@ func init() {
 
 func runC15(c *eng.Ctx) {
 	cr := &caseRunner{c: c, prop: "C15"}
+	defer func() {
+		if C15Concurrent != nil {
+			C15Concurrent(c, cr.next)
+		}
+	}()
 	runC15Fuzz(c, cr)
 	runC15Classes(c, cr)
 	nSpecs := c.Pick(300, 6000)
@@ -546,3 +522,59 @@ func containsOp(detail string, opIdx int) bool {
 	p := fmt.Sprintf("op%d ", opIdx)
 	return len(detail) >= len(p) && detail[:len(p)] == p
 }
+
+// CheckBuiltinArgs compares every injected Scope / Provider / context.Context (kept values) with
+// the scope the triggering operation was issued on (root scope for singletons and
+// provider-level calls).
+func CheckBuiltinArgs(r *Run, o *Obs, rootScope, rootCtx any) (fs []Finding, checked int, deep bool) {
+	m := r.Model
+	for _, run := range o.Runs {
+		if run.Reg < 0 {
+			continue
+		}
+		ri := &m.Regs[run.Reg]
+		var wantScope, wantCtx any
+		if ri.Life == godi.Singleton || run.Scope == 0 {
+			wantScope, wantCtx = rootScope, rootCtx
+		} else if h := r.ScopeHandle(run.Scope); run.Scope > 0 && h != nil && h.S != nil {
+			wantScope, wantCtx = h.S, h.S.Context()
+			deep = true
+		} else {
+			continue
+		}
+		for kk, a := range run.Args {
+			if kk >= len(ri.Binds) || ri.Binds[kk].Kind != BindBuiltin {
+				continue
+			}
+			checked++
+			feat := lifeName(ri.Life) + ":" + ri.Binds[kk].Dep.Form.String()
+			if ri.Meta.InStyle {
+				feat += ":in-field"
+			}
+			where := fmt.Sprintf("argument %d of %s (op%d %s)", kk, m.Describe(run.Reg), run.Op, opText(r, run.Op))
+			switch ri.Binds[kk].Dep.Form {
+			case pool.FScope:
+				if a.Val != wantScope {
+					fs = append(fs, Finding{"injected-scope-wrong", feat, where + ": the injected Scope is not the scope the resolution was issued on"})
+				}
+			case pool.FProvider:
+				if a.Val != any(r.Prov) {
+					fs = append(fs, Finding{"injected-provider-wrong", feat, where + ": the injected Provider is not the root provider"})
+				}
+			case pool.FContext:
+				if a.Val != wantCtx {
+					fs = append(fs, Finding{"injected-context-wrong", feat, where + ": the injected context is not the scope's context"})
+				}
+			}
+		}
+	}
+	return
+}
+
+// C18Concurrent / C03Concurrent / C15Concurrent are installed by package conc: the same
+// oracles over workloads in which one constructor runs concurrently in several scopes.
+var (
+	C18Concurrent func(c *eng.Ctx, next func() (int, bool))
+	C03Concurrent func(c *eng.Ctx, next func() (int, bool))
+	C15Concurrent func(c *eng.Ctx, next func() (int, bool))
+)
